@@ -1,9 +1,53 @@
-/- Driver operations for C11 (stub: to be filled by the property's model). -/
+/- Driver operations for C11: the quantization model executed at `Rat` (exact). -/
 import PrecondVerif.Kit.Proto
+import PrecondVerif.Model.Quant
 
 namespace PrecondVerif.Drv.C11
-open Lean PrecondVerif.Proto
+open Lean PrecondVerif.Proto PrecondVerif.Quant
 
-def ops : List Op := []
+/-- exact value of a finite IEEE-754 binary32 bit pattern -/
+def f32ToRat (bits : Nat) : R Rat :=
+  let neg : Bool := bits / 2 ^ 31 % 2 == 1
+  let e : Nat := bits / 2 ^ 23 % 256
+  let m : Nat := bits % 2 ^ 23
+  if e = 255 then .error "non-finite float32 in input" else
+  let mant : Nat := if e = 0 then m else m + 2 ^ 23
+  let ex : Int := if e = 0 then -149 else (e : Int) - 150
+  let mag : Rat := (mant : Rat) * (2 : Rat) ^ ex
+  .ok (if neg then -mag else mag)
+
+/-- a scalar crosses either as a float32 bit pattern `"0x…"` or as a rational `"p/q"` -/
+def asExact (j : Json) : R Rat := do
+  match j with
+  | .str s =>
+    if s.startsWith "0x" then f32ToRat (← parseHex s) else parseRat s
+  | _ => asRat j
+
+def optRatJson : Option Rat → Json
+  | some r => ratToJson r
+  | none => Json.str "overflow"
+
+def ops : List Op := [
+  -- QuantizedValue.from_float_value / to_float / re-quantization on one tensor
+  ("quantize", fun j => do
+    let n ← getNat j "N"
+    let shape ← getNats j "shape"
+    let ed ← getBool j "ed"
+    let data ← asListOf asExact (← field j "data")
+    if shape = [] then throw "rank 0" else
+    if data.length ≠ rowsOf shape * colsOf shape then throw "data length does not match shape" else
+    let r := quantizeFlat (α := Rat) n shape ed data.toArray
+    pure (obj [("q", intsToJson r.q), ("bucket", listToJson ratToJson r.bucket),
+      ("diag", listToJson ratToJson r.diag), ("deq", listToJson ratToJson r.deq),
+      ("rq", intsToJson r.rq), ("rbucket", listToJson ratToJson r.rbucket)])),
+  -- jnp.round on exact rationals
+  ("round", fun j => do
+    let data ← asListOf asExact (← field j "data")
+    pure (obj [("r", intsToJson (data.map (roundHalfEven (α := Rat))))])),
+  -- astype(bfloat16) on exact float32 values
+  ("bf16", fun j => do
+    let data ← asListOf asExact (← field j "data")
+    pure (obj [("r", listToJson optRatJson (data.map bf16Round))]))
+]
 
 end PrecondVerif.Drv.C11
